@@ -130,3 +130,16 @@ theorem C14_client_domain (s : St) (c : Nat) (r : Bool) : (clientAccesses s c r)
 example : raceBetweenK twoHolders (.client 0) (.client 1) = true := by decide
 
 end TpK.C14
+
+namespace Mtbl.C14sig
+open Mtbl.Generated in
+/-- every `pthread_cond_signal(&x->c)` of threadpool.c (table `signalLocks`, regenerated from the source on every run: the
+    lock/unlock calls of each function in text order) is issued while the caller holds `x->m`.  A signal issued after the
+    unlock would race with the thread it wakes: the result handler destroys its queue's condition variable and frees the
+    queue as soon as it sees `finished && nthreads == 0`, a worker told to exit is joined and freed — an unsynchronised
+    access to (possibly freed) `x->c`.  The machines model each signal as part of the critical section it sits in; this is
+    the part of that modelling decision that is checked against the code. -/
+theorem C14_signals_under_mutex :
+    signalLocks.all (fun s => s.2.2.contains s.2.1) = true ∧ signalLocks.length = signalSites.length :=
+  ⟨Mtbl.Owner.signals_under_their_mutex.2.1, Mtbl.Owner.signals_under_their_mutex.1⟩
+end Mtbl.C14sig
